@@ -630,6 +630,9 @@ pub fn record_panic_locations() {
             .location()
             .map(|l| format!("{}:{}", l.file(), l.line()))
             .unwrap_or_default();
+        if std::env::var_os("FV_PANIC_TRACE").is_some() {
+            eprintln!("panic: {info}");
+        }
         LAST_PANIC_LOC.with(|c| *c.borrow_mut() = loc);
     }));
 }
